@@ -13,7 +13,7 @@
 
 /* ------------------------------------------------------------------ script ------------------ */
 void hx_script_init(hx_script *s) {
-    s->raw = 0; s->nops = 0; s->ndev = 0; s->nfault = 0; s->light = 0; s->want_canon = 0; s->label = NULL; s->inspect = NULL; s->inspect_ctx = NULL;
+    s->raw = 0; s->nops = 0; s->ndev = 0; s->nfault = 0; s->light = 0; s->repeat = 1; s->want_canon = 0; s->label = NULL; s->inspect = NULL; s->inspect_ctx = NULL;
     hx_cfgspec_default(&s->cfg);
 }
 void hx_script_add(hx_script *s, int k, const void *d, uint32_t n) {
@@ -31,6 +31,7 @@ void hx_script_print(hx_buf *b, const hx_script *s) {
     hx_cfgspec_print(b, &s->cfg);
     hb_printf(b, "raw %d\n", s->raw);
     if (s->light) hb_puts(b, "light 1\n");
+    if (s->repeat > 1) hb_printf(b, "repeat %d\n", s->repeat);
     for (int i = 0; i < s->ndev; i++) hb_printf(b, "dev %d %s\n", s->dev[i].n, hx_cba_names[s->dev[i].act]);
     for (int i = 0; i < s->nfault; i++) hb_printf(b, "fault %d\n", s->fault[i]);
     for (int i = 0; i < s->nops; i++) {
@@ -64,6 +65,7 @@ int hx_script_parse(hx_script *s, const char *text, hx_buf *st) {
             c->auto_destroy = (uint8_t) ad; c->parsers = (uint8_t) pa; c->req_decomp = (uint8_t) qd; c->res_decomp = (uint8_t) sd; c->extract_files = (uint8_t) ef;
         } else if (!strcmp(w, "raw")) s->raw = atoi(arg);
         else if (!strcmp(w, "light")) s->light = atoi(arg);
+        else if (!strcmp(w, "repeat")) s->repeat = atoi(arg);
         else if (!strcmp(w, "dev")) {
             int n; char a[32];
             if (sscanf(arg, "%d %31s", &n, a) != 2) return -1;
